@@ -14,6 +14,7 @@ while returning (besides the recovered state) the query remainder that needs to 
 """
 from os import makedirs
 import os.path
+import threading
 import hashlib
 import json
 from liquer.state_types import state_types_registry
@@ -598,7 +599,8 @@ class FileCache(CacheMixin):
     def _write_file(self, path, b):
         """Write a file via a temporary file and a rename,
         so that a crash leaves either the previous content or the complete new one."""
-        tmp = path + ".tmp"
+        # a temporary name of its own for every writer: concurrent writers of one entry must not share it
+        tmp = f"{path}.{os.getpid()}.{threading.get_ident()}.tmp"
         with open(tmp, "wb") as f:
             f.write(b)
         os.replace(tmp, path)
